@@ -56,7 +56,9 @@ def gen_config(rng):
             tun.append({"attr": f"t{i}_{j}", "kind": kind, "default": default, "form": rng.choice(EMPTY_FORMS),
                         "tuple_empty": rng.random() < 0.5,
                         "subtable": rng.choice([None, None, "state", "cfg/deep"]), "writeDefault": rng.random() < 0.6})
-        classes.append({"name": f"K{i}", "base": base, "tunables": tun})
+        classes.append({"name": f"K{i}", "base": base, "tunables": tun,
+                        # an owner that evaluates false (an empty container, a latch): tunables work as on any other
+                        "falsy": rng.choice(["len0", "bool"]) if rng.random() < 0.1 else None})
     if rng.random() < 0.15:
         # diamond: Root declares a tunable, one of the two middle classes redeclares it with another default, the leaf
         # inherits from both (in either order): the redeclaration is the one Python's MRO selects
@@ -188,8 +190,12 @@ def build_source(cfg):
     for c in cfg["classes"]:
         bases = c.get("bases") if c.get("bases") is not None else ([c["base"]] if c["base"] else [])
         L.append(f"class {c['name']}" + (f"({', '.join(bases)})" if bases else "") + ":")
-        if not c["tunables"]:
+        if not c["tunables"] and not c.get("falsy"):
             L.append("    pass")
+        if c.get("falsy") == "len0":
+            L += ["    def __len__(self):", "        return 0"]
+        elif c.get("falsy") == "bool":
+            L += ["    def __bool__(self):", "        return False"]
         for t in c["tunables"]:
             kw = ""
             if t["subtable"]:
@@ -342,6 +348,8 @@ def execute(plan, trace=False):
             inst = insts[ii]
             try:
                 o = getattr(mod, inst["cls"])()
+                if not o:
+                    faults["owner_evaluates_false"] = faults.get("owner_evaluates_false", 0) + 1
                 setup_tunables(o, inst["name"], inst["prefix"])
             except Exception as e:
                 raise Violation(prop, "setup_raised", f"op {idx}: setup_tunables({inst['cls']}, {inst['name']!r}, {inst['prefix']!r}) raised {type(e).__name__}: {e}",
